@@ -21,17 +21,17 @@ Definition vcode (v : verdict) : Z :=
   | VParentBusy => 6 | VRootProt => 7 | VParentGone => 8 | VCapAncestor => 9 | VSiblingSum => 10
   | VCapChildren => 12 | VChildrenSum => 13 | VDelProtected => 15 | VDelMissing => 16
   | VDelAllocated => 17 | VDelChildren => 18 | VCycle => 19 | VSubtreeDepth => 20
-  | VNotInvoked => 21 | VRootParent => 22 | VFuel => 99
+  | VNotInvoked => 21 | VRootParent => 22 | VParentTerminating => 23 | VFuel => 99
   end.
 
 Definition dRl : dec rlist := let* kvs := dList (dPair dPos dZ) in ret (list_to_map kvs).
 Definition dParent : dec (option positive) :=
   let* z := dZ in if z <? 0 then fail else if z =? 0 then ret None else ret (Some (Z.to_pos z)).
 Definition dSpecBody (a : Z) : dec qspec :=
-  let* p := dParent in let* c := dRl in let* d := dRl in let* g := dRl in ret (mkQ p a 0 c d g).
+  let* p := dParent in let* c := dRl in let* d := dRl in let* g := dRl in ret (mkQ p a 0 false c d g).
 Definition dQueue : dec (positive * qspec) :=
   let* n := dPos in let* p := dParent in let* a := dZ in let* st := dZ in
-  let* c := dRl in let* d := dRl in let* g := dRl in ret (n, mkQ p a st c d g).
+  let* c := dRl in let* d := dRl in let* g := dRl in ret (n, mkQ p a st false c d g).
 Definition dReq : dec req :=
   let* k := dZ in
   if k =? 1 then let* n := dPos in let* s := dSpecBody 0 in ret (Create n s)
@@ -55,7 +55,7 @@ Definition eRl (m : rlist) : list Z := eList (fun kv => [Zpos (fst kv); snd kv])
 Definition eParent (p : option positive) : list Z := match p with None => [0] | Some x => [Zpos x] end.
 Definition eQueue (ns : positive * qspec) : list Z :=
   let s := snd ns in
-  [Zpos (fst ns)] ++ eParent (qparent s) ++ [qalloc s; qstate s] ++ eRl (qcap s) ++ eRl (qdes s) ++ eRl (qguar s).
+  [Zpos (fst ns)] ++ eParent (qparent s) ++ [qalloc s; qstate s] ++ eBool (qterm s) ++ eRl (qcap s) ++ eRl (qdes s) ++ eRl (qguar s).
 Definition eState (Q : queues) : list Z := eList eQueue (sort_kv (map_to_list Q)).
 
 Fixpoint eVerdicts (i : Z) (vs : list verdict) : list Z :=
